@@ -119,6 +119,13 @@ fn rx_step(ignore_mac: bool, shape: Option<(usize, u8)>) {
         }
     }
     let accept = parses && !oversize && n.is_some() && authentic;
+    // vacuity witness: shapes that can be accepted must reach the acceptance branch (with an
+    // application payload where the shape has room for one); the others the rejection branch
+    let can_accept = match shape { Some((l, fol)) => l >= 12 + fol as usize, None => true };
+    let room = match shape { Some((l, fol)) => l > 13 + fol as usize, None => true };
+    kani::cover!(if can_accept { accept && (!room || dl.len() == 1) } else { !parses },
+        "witness: accepted downlink (payload delivered where the shape has one) / rejected as unparseable for shapes that cannot parse");
+    kani::cover!(!can_accept || (parses && !accept && !oversize), "witness: rejected although parseable");
 
     if oversize {
         // C07: "may additionally end the current receive procedure as if it had timed out"
@@ -127,11 +134,11 @@ fn rx_step(ignore_mac: bool, shape: Option<(usize, u8)>) {
         let tr = twin.rx2_complete(&mut tcfg, &region);
         assert!(session_same(&s, &twin) && mc::cfg_same(&cfg, &tcfg), "C07: an oversized frame may only act like a receive timeout");
         assert!(same_resp(&resp, &tr), "C07: an oversized frame must be answered like a receive timeout");
-        kani::cover!(true, "oversized frame");
+        kani::cover!(true, "info: oversized frame");
     } else if accept {
         let n = n.unwrap();
-        kani::cover!(true, "accepted downlink");
-        kani::cover!(n > 0xFFFF && (n as u16) < (pre.fcnt_down.unwrap_or(0) as u16), "accepted across a 16-bit roll-over");
+        kani::cover!(true, "info: accepted downlink");
+        kani::cover!(n > 0xFFFF && (n as u16) < (pre.fcnt_down.unwrap_or(0) as u16), "info: accepted across a 16-bit roll-over");
         assert!(s.fcnt_down == Some(n), "C05: the accepted counter N must be remembered");
         assert!(s.adr_ack_cnt == 0, "C12: an accepted downlink restarts the ADR ACK counter");
         if pre.fcnt_up == u32::MAX {
@@ -173,14 +180,14 @@ fn rx_step(ignore_mac: bool, shape: Option<(usize, u8)>) {
                     kani::assume(k < plen && k / 16 == j);
                     let ks = model::byte(e.output, k % 16);
                     assert!(dl[0].data[k] == frame[8 + foptslen + 1 + k] ^ ks, "C05: delivered plaintext = ciphertext xor keystream(N)");
-                    kani::cover!(plen > 16, "two keystream blocks");
+                    kani::cover!(plen > 16, "info: two keystream blocks");
                 }
             }
         }
     } else {
-        kani::cover!(parses && n.is_some() && !authentic, "parseable fresh frame with wrong MIC");
-        kani::cover!(parses && n.is_none(), "replayed / stale counter");
-        kani::cover!(!parses, "unparseable bytes");
+        kani::cover!(parses && n.is_some() && !authentic, "info: parseable fresh frame with wrong MIC");
+        kani::cover!(parses && n.is_none(), "info: replayed / stale counter");
+        kani::cover!(!parses, "info: unparseable bytes");
         assert!(matches!(resp, Response::NoUpdate), "C05: a frame that is not authentic and fresh must not be acted upon");
         assert!(s.fcnt_down == pre.fcnt_down, "C05: a rejected frame must not move the downlink counter");
         assert!(session_same(&s, &pre), "C07: a rejected frame must leave the session unchanged");
